@@ -604,6 +604,10 @@ inline std::vector<CorpusItem> corpus(size_t maxFile) {
     r.push_back({true, "gen" + std::to_string(i) + ".msgpack", refmp::encode(m)});
     i++;
   }
+  // number tokens around the 63-character scratch buffer of the JSON parser (every truncation of these walks 66..1 characters)
+  r.push_back({false, "longnum-array.json", "[" + std::string(66, '1') + "]"});
+  r.push_back({false, "longnum-top.json", "-0." + std::string(62, '0') + "1e-5"});
+  r.push_back({false, "longnum-member.json", "{\"a\":" + std::string(64, '9') + ",\"b\":1}"});
   return r;
 }
 
@@ -826,7 +830,7 @@ inline void run(Ctx& C) {
                   (mpStar3 == 2 ? "all 2^24 star" : mpStar3 == 1 ? "header-led star" : "no star") + ", kind sized on " +
                   (mpRam3 == 2 ? "all 2^24" : mpRam3 == 1 ? "header-led" : "none") + "; header-led 4-byte strings kind sized: " + (mpRam4 ? "yes" : "no") +
                   "; corpus (" + std::to_string(items.size()) + " items, " + std::to_string(corpusBytes) + " bytes: fuzzing seeds <= " + std::to_string(corpusMax) +
-                  " bytes + 12 generated) itself + every truncation + every single-byte substitution: items <= " + std::to_string(corpusFull) +
+                  " bytes + 12 generated + 3 long-number documents) itself + every truncation + every single-byte substitution: items <= " + std::to_string(corpusFull) +
                   " bytes (MessagePack items: " + std::to_string(corpusFullMp) + ") full product (" + std::to_string(nFullItems) + "), <= " + std::to_string(corpusStar) + " star (" + std::to_string(nStarItems) +
                   "), longer kinds cstr+sized (" + std::to_string(nRamItems) + ")";
   C.bound(b);
